@@ -69,7 +69,7 @@ def make_judge(model, rec, Sid):
             # witness detail for the known-finding classifier (mechanism: '$' matches before one trailing newline)
             if forced in model.by_name:
                 case["type_without_trailing_nl"] = forced if model.accepts(forced, body[:-1]) else None
-            elif forced is None:
+            elif forced is None or forced == "":
                 t0_ = model.natural(body[:-1])
                 case["type_without_trailing_nl"] = t0_.name if t0_ else None
         if forced is None:
